@@ -13,7 +13,7 @@ Proof.
   - destruct l; simpl in *; [reflexivity | lia].
   - destruct l as [|a l']; [reflexivity|].
     cbn [chunks_fuel concat]. rewrite IH; [apply firstn_skipn | exact Hn |].
-    rewrite skipn_length. simpl in *. lia.
+    rewrite skipn_length. lia.
 Qed.
 
 Lemma chunks_fuel_nonempty : forall (A : Type) fuel n (l : list A),
@@ -37,10 +37,11 @@ Proof.
     cbn [chunks_fuel length].
     remember (skipn n (a :: l')) as r eqn:Hr.
     destruct r as [|b r'].
-    + destruct f; simpl; lia.
+    + replace (chunks_fuel f n []) with (@nil (list A)) by (destruct f; reflexivity).
+      cbn [length]. rewrite Nat.sub_diag. lia.
     + assert (Hlen : length (b :: r') = (length (a :: l') - n)%nat).
       { rewrite Hr. apply skipn_length. }
-      assert (Hle : (length (b :: r') <= f)%nat) by (rewrite Hlen; simpl in *; lia).
+      assert (Hle : (length (b :: r') <= f)%nat) by (rewrite Hlen; lia).
       specialize (IH n (b :: r') Hn Hle ltac:(discriminate)).
       assert (Hpos : (1 <= length (chunks_fuel f n (b :: r')))%nat).
       { destruct f; [simpl in Hle; lia|]. simpl. lia. }
@@ -50,15 +51,19 @@ Proof.
       simpl length in *. nia.
 Qed.
 
+Lemma chunks_fuel_cons : forall (A : Type) fuel n (x : A) l,
+  chunks_fuel (S fuel) n (x :: l) = firstn n (x :: l) :: chunks_fuel fuel n (skipn n (x :: l)).
+Proof. reflexivity. Qed.
+
 Lemma chunks_fuel_map : forall (A B : Type) (f : A -> B) fuel n (l : list A),
   chunks_fuel fuel n (map f l) = map (map f) (chunks_fuel fuel n l).
 Proof.
   induction fuel as [|fu IH]; intros n l; [reflexivity|].
   destruct l as [|a l']; [reflexivity|].
-  change (map f (a :: l')) with (f a :: map f l') at 1.
-  cbn [chunks_fuel map].
+  change (map f (a :: l')) with (f a :: map f l').
+  rewrite !chunks_fuel_cons.
   change (f a :: map f l') with (map f (a :: l')).
-  rewrite <- firstn_map, <- skipn_map, IH. reflexivity.
+  rewrite firstn_map, skipn_map, IH. reflexivity.
 Qed.
 
 Lemma chunk_size_pos : forall len k, (1 <= chunk_size len k)%nat.
@@ -92,6 +97,15 @@ Lemma chunks_map_l : forall (A B : Type) (f : A -> B) (l : list A) k,
   chunk_tasks (map f l) k = map (map f) (chunk_tasks l k).
 Proof. intros. unfold chunk_tasks. rewrite map_length. apply chunks_fuel_map. Qed.
 
+Lemma chunks_partition_l : forall (A : Type) (l : list A) (k : nat),
+  (1 <= k)%nat ->
+  concat (chunk_tasks l k) = l /\
+  Forall (fun c => c <> [] /\ (length c <= chunk_size (length l) k)%nat) (chunk_tasks l k) /\
+  (length (chunk_tasks l k) <= k)%nat.
+Proof.
+  intros A l k Hk. split; [apply chunks_concat_l | split; [apply chunks_shape_l | apply chunks_count_l, Hk]].
+Qed.
+
 (* ------------------------------------------------------------------------- *)
 (** * schedule independence *)
 
@@ -114,27 +128,27 @@ Section Sched.
     apply L_eqb_spec in E. contradiction.
   Qed.
 
-  Lemma upd_same : forall m l v, upd m l v l = v.
+  Lemma upd_same : forall (m : L -> V) l v, upd m l v l = v.
   Proof. intros. unfold Model.upd. rewrite L_eqb_refl. reflexivity. Qed.
 
-  Lemma upd_other : forall m l v l', l <> l' -> upd m l v l' = m l'.
+  Lemma upd_other : forall (m : L -> V) l v l', l <> l' -> upd m l v l' = m l'.
   Proof. intros. unfold Model.upd. rewrite L_eqb_neq by assumption. reflexivity. Qed.
 
-  Lemma exec_cons : forall o s m, exec (o :: s) m = exec s (step m o).
+  Lemma exec_cons : forall (o : op) (s : list op) (m : L -> V), exec (o :: s) m = exec s (step m o).
   Proof. reflexivity. Qed.
 
-  Lemma exec_app : forall s1 s2 m, exec (s1 ++ s2) m = exec s2 (exec s1 m).
+  Lemma exec_app : forall (s1 s2 : list op) (m : L -> V), exec (s1 ++ s2) m = exec s2 (exec s1 m).
   Proof. intros. unfold Model.exec. apply fold_left_app. Qed.
 
   (* an operation whose footprint avoids l leaves l alone *)
-  Lemma step_untouched : forall o m l, ~ In l (fp o) -> step m o l = m l.
+  Lemma step_untouched : forall (o : op) (m : L -> V) l, ~ In l (fp o) -> step m o l = m l.
   Proof.
     intros [l0 v|d s] m l H; simpl in *.
     - apply upd_other. intro; subst; tauto.
     - apply upd_other. intro; subst; tauto.
   Qed.
 
-  Lemma exec_untouched : forall s m l, (forall o, In o s -> ~ In l (fp o)) -> exec s m l = m l.
+  Lemma exec_untouched : forall (s : list op) (m : L -> V) l, (forall o, In o s -> ~ In l (fp o)) -> exec s m l = m l.
   Proof.
     induction s as [|o s IH]; intros m l H; [reflexivity|].
     rewrite exec_cons, IH.
@@ -144,7 +158,7 @@ Section Sched.
 
   (* memories that agree on a set S closed under the footprints of the operations
      still agree on S afterwards *)
-  Lemma step_agree : forall (S : L -> Prop) o m1 m2,
+  Lemma step_agree : forall (S : L -> Prop) (o : op) (m1 m2 : L -> V),
     (forall l, In l (fp o) -> S l) -> (forall l, S l -> m1 l = m2 l) ->
     forall l, S l -> step m1 o l = step m2 o l.
   Proof.
@@ -154,7 +168,7 @@ Section Sched.
       apply Hag, Hfp. simpl. auto.
   Qed.
 
-  Lemma exec_agree : forall (S : L -> Prop) s m1 m2,
+  Lemma exec_agree : forall (S : L -> Prop) (s : list op) (m1 m2 : L -> V),
     (forall o, In o s -> forall l, In l (fp o) -> S l) -> (forall l, S l -> m1 l = m2 l) ->
     forall l, S l -> exec s m1 l = exec s m2 l.
   Proof.
@@ -188,8 +202,8 @@ Section Sched.
     intros own ts1 x t ts2 H i u Hu o Ho l Hl.
     destruct (Nat.eq_dec i (length ts1)) as [->|Hne].
     - rewrite nth_error_mid in Hu. injection Hu as <-.
-      apply (H (length ts1) (x :: t)); [apply nth_error_mid | right; exact Ho | exact Hl].
-    - apply (H i u); [|exact Ho|exact Hl].
+      exact (H _ (x :: t) (nth_error_mid _ ts1 (x :: t) ts2) o (or_intror Ho) l Hl).
+    - refine (H i u _ o Ho l Hl).
       rewrite (nth_error_mid_other _ ts1 (x :: t) t ts2 i Hne). exact Hu.
   Qed.
 
@@ -216,13 +230,13 @@ Section Sched.
         * intros o Ho l' Hl'.
           destruct (nth_in_or_default (own l) (ts1 ++ (x :: t) :: ts2) []) as [Hin|Hd].
           -- destruct (lt_dec (own l) (length (ts1 ++ (x :: t) :: ts2))) as [Hlt|Hge].
-             ++ apply (Hown (own l) u); [|exact Ho|exact Hl'].
+             ++ refine (Hown (own l) u _ o Ho l' Hl').
                 unfold u. apply nth_error_nth'. exact Hlt.
              ++ unfold u in Ho. rewrite nth_overflow in Ho by lia. destruct Ho.
           -- unfold u in Ho. rewrite Hd in Ho. destruct Ho.
         * intros l' Hl'. apply step_untouched. intro Hin.
           assert (own l' = length ts1).
-          { apply (Hown (length ts1) (x :: t)); [apply nth_error_mid | left; reflexivity | exact Hin]. }
+          { exact (Hown _ (x :: t) (nth_error_mid _ ts1 (x :: t) ts2) x (or_introl eq_refl) l' Hin). }
           lia.
   Qed.
 
@@ -326,24 +340,301 @@ End Sched.
 Lemma nat_eqb_spec : forall a b : nat, Nat.eqb a b = true <-> a = b.
 Proof. intros. apply Nat.eqb_eq. Qed.
 
+Lemma map_fst_combine : forall (A B : Type) (l1 : list A) (l2 : list B),
+  length l1 = length l2 -> map fst (combine l1 l2) = l1.
+Proof.
+  induction l1 as [|a l1 IH]; intros [|b l2] H; simpl in *; try reflexivity; try discriminate.
+  f_equal. apply IH. lia.
+Qed.
+
+Lemma map_snd_combine : forall (A B : Type) (l1 : list A) (l2 : list B),
+  length l1 = length l2 -> map snd (combine l1 l2) = l2.
+Proof.
+  induction l1 as [|a l1 IH]; intros [|b l2] H; simpl in *; try reflexivity; try discriminate.
+  f_equal. apply IH. lia.
+Qed.
+
 Section PoolProofs.
   Variable I V : Type.
   Variable entry : I -> V.
 
+  Let wr (pi : nat * I) : op nat V := Wr (fst pi) (entry (snd pi)).
+
   Lemma pool_concat : forall idx T, concat (pool_tasks entry idx T) = serial_task entry idx.
   Proof.
-    intros. unfold pool_tasks, serial_task. rewrite concat_map, chunks_concat_l. reflexivity.
+    intros. unfold pool_tasks, serial_task. rewrite <- concat_map, chunks_concat_l. reflexivity.
+  Qed.
+
+  Lemma locs_wr : forall ch : list (nat * I), locs nat V (map wr ch) = map fst ch.
+  Proof.
+    induction ch as [|c ch IH]; [reflexivity|]. unfold locs in *. simpl. rewrite IH. reflexivity.
   Qed.
 
   Lemma pool_locs : forall idx T,
     concat (map (locs nat V) (pool_tasks entry idx T)) = seq 0 (length idx).
   Proof.
-    intros idx T. unfold pool_tasks.
-    assert (E : forall ch : list (nat * I),
-               locs nat V (map (fun pi : nat * I => Wr (fst pi) (entry (snd pi))) ch) = map fst ch).
-    { induction ch as [|c ch IH]; [reflexivity|]. unfold locs in *. simpl. rewrite IH. reflexivity. }
-    rewrite map_map. rewrite (map_ext _ (map fst) E).
+    intros idx T. unfold pool_tasks. fold wr.
+    rewrite map_map. rewrite (map_ext _ (map fst) locs_wr).
     rewrite <- chunks_map_l, chunks_concat_l.
-    rewrite map_fst_combine_seq. reflexivity.
-  Abort.
+    apply map_fst_combine. rewrite seq_length. reflexivity.
+  Qed.
+
+  (* every schedule of the pool's chunk tasks leaves map entry idx in the result array *)
+  Lemma pool_result_l : forall idx T s m0,
+    interleave (pool_tasks entry idx T) s ->
+    read_back (length idx) (exec Nat.eqb s m0) = map entry idx.
+  Proof.
+    intros idx T s m0 Hil.
+    set (pis := combine (seq 0 (length idx)) idx).
+    assert (Hlen : length (seq 0 (length idx)) = length idx) by apply seq_length.
+    assert (E1 : map fst pis = seq 0 (length idx)) by (apply map_fst_combine; exact Hlen).
+    assert (E2 : map snd pis = idx) by (apply map_snd_combine; exact Hlen).
+    unfold read_back. rewrite <- E1.
+    transitivity (map entry (map snd pis)); [|rewrite E2; reflexivity].
+    rewrite !map_map. apply map_ext_in. intros [p ix] Hin. simpl.
+    rewrite (sched_nodup_independent nat V Nat.eqb nat_eqb_spec (pool_tasks entry idx T) s
+               (concat (pool_tasks entry idx T))).
+    - rewrite pool_concat. unfold serial_task. fold pis.
+      set (lvs := map (fun pi : nat * I => (fst pi, entry (snd pi))) pis).
+      replace (map (fun pi : nat * I => Wr (fst pi) (entry (snd pi))) pis)
+        with (map (fun lv : nat * V => Wr (fst lv) (snd lv)) lvs)
+        by (unfold lvs; rewrite map_map; reflexivity).
+      apply (exec_writes_nodup nat V Nat.eqb nat_eqb_spec).
+      + unfold lvs. rewrite map_map. simpl.
+        change (map (fun x : nat * I => fst x) pis) with (map fst pis).
+        unfold pis. rewrite map_fst_combine by exact Hlen. apply seq_NoDup.
+      + unfold lvs. apply in_map_iff. exists (p, ix). split; [reflexivity | exact Hin].
+    - rewrite pool_locs. apply seq_NoDup.
+    - exact Hil.
+    - apply interleave_concat.
+  Qed.
+
+  (* the pool's tasks write pairwise different positions *)
+  Lemma pool_writes_disjoint_l : forall idx T,
+    NoDup (concat (map (locs nat V) (pool_tasks entry idx T))).
+  Proof. intros. rewrite pool_locs. apply seq_NoDup. Qed.
+
+  Lemma serial_result_l : forall idx m0,
+    read_back (length idx) (exec Nat.eqb (serial_task entry idx) m0) = map entry idx.
+  Proof.
+    intros idx m0.
+    pose proof (interleave_concat _ (pool_tasks entry idx 1)) as H.
+    rewrite pool_concat in H.
+    exact (pool_result_l idx 1 _ m0 H).
+  Qed.
 End PoolProofs.
+
+(* ------------------------------------------------------------------------- *)
+(** * symmetric assembly = full assembly (assemble_entries and the bsr path) *)
+
+Lemma pair_eqb_spec : forall p q, pair_eqb p q = true <-> p = q.
+Proof.
+  intros [a b] [c d]. unfold pair_eqb. simpl. rewrite andb_true_iff, !Z.eqb_eq.
+  split; [intros [-> ->]; reflexivity | intros E; injection E; auto].
+Qed.
+
+Lemma pair_eqb_neq : forall p q, p <> q -> pair_eqb p q = false.
+Proof.
+  intros p q H. destruct (pair_eqb p q) eqn:E; [|reflexivity].
+  apply pair_eqb_spec in E. contradiction.
+Qed.
+
+Lemma swap_swap : forall p, swap (swap p) = p.
+Proof. intros [a b]. reflexivity. Qed.
+
+Lemma swap_inj : forall p q, swap p = swap q -> p = q.
+Proof. intros p q H. rewrite <- (swap_swap p), <- (swap_swap q), H. reflexivity. Qed.
+
+Lemma pair_eq_dec : forall p q : Z * Z, {p = q} + {p <> q}.
+Proof. decide equality; apply Z.eq_dec. Qed.
+
+Section EntriesProofs.
+  Variable V : Type.
+  Variable vzero : V.
+  Variable vadd : V -> V -> V.
+  Variable tr : V -> V.
+
+  Notation den := (den vzero vadd).
+
+  Lemma den_app_notin_l : forall (A B : list ((Z * Z) * V)) q,
+    (forall t, In t A -> fst t <> q) -> den (A ++ B) q = den B q.
+  Proof.
+    induction A as [|t A IH]; intros B q H; [reflexivity|].
+    simpl. rewrite pair_eqb_neq by (apply H; left; reflexivity).
+    apply IH. intros t' Ht'. apply H. right; exact Ht'.
+  Qed.
+
+  Lemma den_notin : forall (A : list ((Z * Z) * V)) q,
+    (forall t, In t A -> fst t <> q) -> den A q = vzero.
+  Proof.
+    intros A q H. rewrite <- (app_nil_r A). rewrite den_app_notin_l by exact H. reflexivity.
+  Qed.
+
+  Lemma den_app_notin_r : forall (A B : list ((Z * Z) * V)) q,
+    (forall t, In t B -> fst t <> q) -> den (A ++ B) q = den A q.
+  Proof.
+    induction A as [|t A IH]; intros B q H.
+    - simpl. apply den_notin, H.
+    - simpl. rewrite IH by exact H. reflexivity.
+  Qed.
+
+  Lemma den_unique : forall (k : Z * Z -> Z * Z) (f : Z * Z -> V) (Ps : list (Z * Z)) p,
+    NoDup (map k Ps) -> In p Ps ->
+    den (map (fun x => (k x, f x)) Ps) (k p) = vadd (f p) vzero.
+  Proof.
+    induction Ps as [|x Ps IH]; intros p Hnd Hin; [destruct Hin|].
+    simpl in Hnd. inversion Hnd as [|? ? Hnin Hnd']; subst.
+    simpl. destruct Hin as [->|Hin].
+    - rewrite (proj2 (pair_eqb_spec _ _) eq_refl). f_equal.
+      apply den_notin. intros t Ht. apply in_map_iff in Ht. destruct Ht as [y [<- Hy]]. simpl.
+      intro E. apply Hnin. rewrite <- E. apply in_map. exact Hy.
+    - rewrite pair_eqb_neq; [apply IH; assumption|].
+      intro E. apply Hnin. rewrite E. apply in_map. exact Hin.
+  Qed.
+
+  Lemma den_unique_id : forall (f : Z * Z -> V) (Ps : list (Z * Z)) p,
+    NoDup Ps -> In p Ps -> den (map (fun x => (x, f x)) Ps) p = vadd (f p) vzero.
+  Proof.
+    intros f Ps p Hnd Hin.
+    apply (den_unique (fun x => x) f Ps p); [rewrite map_id; exact Hnd | exact Hin].
+  Qed.
+
+  Lemma nonzero_lt_false : forall P, nonzero_lt false P = P.
+  Proof.
+    intro P. unfold nonzero_lt. simpl. induction P as [|p P IH]; [reflexivity|]. simpl. rewrite IH. reflexivity.
+  Qed.
+
+  Lemma NoDup_filter : forall (A : Type) (f : A -> bool) (l : list A), NoDup l -> NoDup (filter f l).
+  Proof.
+    induction l as [|a l IH]; intro H; [constructor|]. inversion H; subst. simpl.
+    destruct (f a); [constructor|]; auto. intro Hin. apply filter_In in Hin. tauto.
+  Qed.
+
+  Lemma NoDup_map_inj : forall (A B : Type) (f : A -> B) (l : list A),
+    (forall x y, f x = f y -> x = y) -> NoDup l -> NoDup (map f l).
+  Proof.
+    induction l as [|a l IH]; intros Hinj H; [constructor|]. inversion H; subst. simpl.
+    constructor; [|apply IH; assumption].
+    intro Hin. apply in_map_iff in Hin. destruct Hin as [y [E Hy]]. apply Hinj in E. subst. contradiction.
+  Qed.
+
+  Theorem symmetric_equals_full_l : forall (P : list (Z * Z)) (e : Z * Z -> V),
+    NoDup P -> (forall p, In p P -> In (swap p) P) ->
+    (forall p, In p P -> e (swap p) = tr (e p)) ->
+    forall q, den (assemble_entries tr true P e) q = den (assemble_entries tr false P e) q.
+  Proof.
+    intros P e Hnd Hsym He q. unfold assemble_entries.
+    rewrite nonzero_lt_false.
+    set (IJ := nonzero_lt true P). set (IJ' := filter offdiag IJ).
+    assert (HIJ : forall p, In p IJ <-> In p P /\ lower p = true).
+    { intro p. unfold IJ, nonzero_lt. rewrite filter_In. simpl. tauto. }
+    assert (HIJ' : forall p, In p IJ' <-> In p P /\ lower p = true /\ offdiag p = true).
+    { intro p. unfold IJ'. rewrite filter_In, HIJ. tauto. }
+    assert (HndIJ : NoDup IJ) by (apply NoDup_filter, Hnd).
+    assert (HndIJ' : NoDup (map swap IJ')).
+    { apply NoDup_map_inj; [exact swap_inj | apply NoDup_filter, HndIJ]. }
+    destruct (in_dec pair_eq_dec q P) as [HqP|HqP].
+    - (* q in the pattern *)
+      rewrite (den_unique_id e P q Hnd HqP).
+      destruct (lower q) eqn:Hlow.
+      + (* on or below the diagonal: computed directly, nothing mirrored onto it *)
+        rewrite den_app_notin_r.
+        * apply (den_unique_id e IJ q HndIJ). apply HIJ. split; assumption.
+        * intros t Ht. apply in_map_iff in Ht. destruct Ht as [p [<- Hp]]. simpl.
+          apply HIJ' in Hp. destruct Hp as [_ [Hl Ho]]. intro E. subst q.
+          destruct p as [a b]. unfold lower, offdiag, swap in *. simpl in *.
+          apply Z.leb_le in Hl, Hlow. apply negb_true_iff, Z.eqb_neq in Ho. lia.
+      + (* strictly above: the mirror image of (swap q) *)
+        rewrite den_app_notin_l.
+        * rewrite <- (swap_swap q) at 1.
+          rewrite (den_unique swap (fun p => tr (e p)) IJ' (swap q) HndIJ').
+          -- f_equal. rewrite <- (He (swap q)) by (apply Hsym, HqP). rewrite swap_swap. reflexivity.
+          -- apply HIJ'. split; [apply Hsym, HqP|].
+             destruct q as [a b]. unfold lower, offdiag, swap in *. simpl in *.
+             apply Z.leb_gt in Hlow. split; [apply Z.leb_le; lia | apply negb_true_iff, Z.eqb_neq; lia].
+        * intros t Ht. apply in_map_iff in Ht. destruct Ht as [p [<- Hp]]. simpl.
+          apply HIJ in Hp. intro E. subst p. destruct Hp as [_ Hl]. congruence.
+    - (* q outside the pattern: zero in both *)
+      rewrite (den_notin (map (fun p => (p, e p)) P)).
+      + apply den_notin. intros t Ht. apply in_app_or in Ht. destruct Ht as [Ht|Ht].
+        * apply in_map_iff in Ht. destruct Ht as [p [<- Hp]]. simpl. apply HIJ in Hp.
+          intro E. subst p. tauto.
+        * apply in_map_iff in Ht. destruct Ht as [p [<- Hp]]. simpl. apply HIJ' in Hp.
+          intro E. apply HqP. rewrite <- E. apply Hsym. tauto.
+      + intros t Ht. apply in_map_iff in Ht. destruct Ht as [p [<- Hp]]. simpl.
+        intro E. subst p. contradiction.
+  Qed.
+End EntriesProofs.
+
+(* ------------------------------------------------------------------------- *)
+(** * packed <-> blocked layout: the index permutation *)
+
+Open Scope Z_scope.
+
+Lemma to_seq_acc_shift : forall I ms acc, length I = length ms ->
+  to_seq_acc acc I ms = acc * prodZ ms + to_seq_acc 0 I ms.
+Proof.
+  induction I as [|i I IH]; intros [|m ms] acc H; simpl in *; try discriminate; [lia|].
+  rewrite (IH ms (acc * m + i)) by lia. rewrite (IH ms i) by lia. ring.
+Qed.
+
+Lemma to_seq_acc_snoc : forall I ms acc r k, length I = length ms ->
+  to_seq_acc acc (I ++ [r]) (ms ++ [k]) = to_seq_acc acc I ms * k + r.
+Proof.
+  induction I as [|i I IH]; intros [|m ms] acc r k H; simpl in *; try discriminate; [reflexivity|].
+  apply IH. lia.
+Qed.
+
+Definition in_ranges (I ms : list Z) : Prop := Forall2 (fun i m => 0 <= i < m) I ms.
+
+Lemma Forall2_length : forall (A B : Type) (R : A -> B -> Prop) l1 l2,
+  Forall2 R l1 l2 -> length l1 = length l2.
+Proof. intros A B R l1 l2 H. induction H; simpl; congruence. Qed.
+
+Lemma to_seq_range : forall I ms, in_ranges I ms -> 0 <= to_seq I ms < prodZ ms.
+Proof.
+  unfold to_seq. intros I ms H. induction H as [|i m I ms Him H IH]; simpl; [lia|].
+  pose proof (Forall2_length _ _ _ _ _ H) as Hlen.
+  rewrite to_seq_acc_shift by exact Hlen. nia.
+Qed.
+
+Lemma perm_of_packed : forall M k X r, 0 <= r < k -> perm M k (X * k + r) = r * M + X.
+Proof.
+  intros M k X r Hr. unfold perm.
+  rewrite (Z.add_comm (X * k) r), Z.mod_add, Z.div_add by lia.
+  rewrite Z.mod_small, Z.div_small by lia. ring.
+Qed.
+
+Lemma perm_bijective_l : forall M k p, 0 < M -> 0 < k -> 0 <= p < M * k ->
+  0 <= perm M k p < M * k /\ perm k M (perm M k p) = p.
+Proof.
+  intros M k p HM Hk Hp.
+  pose proof (Z.div_mod p k ltac:(lia)) as Hdm.
+  pose proof (Z.mod_pos_bound p k Hk) as Hr.
+  assert (Ha : 0 <= p / k < M).
+  { split; [apply Z.div_pos; lia | apply Z.div_lt_upper_bound; lia]. }
+  assert (E : p mod k * M + p / k = p / k + p mod k * M) by ring.
+  split.
+  - unfold perm. nia.
+  - unfold perm. rewrite E. rewrite Z.mod_add, Z.div_add by lia.
+    rewrite (Z.mod_small (p / k) M), (Z.div_small (p / k) M) by lia. rewrite Hdm at 3. ring.
+Qed.
+
+Lemma packed_blocked_l : forall (bs : list (Z * Z)) (nc : Z * Z) (sel : list (Z * Z)) (rc : Z * Z),
+  in_ranges (map fst sel) (map fst bs) -> in_ranges (map snd sel) (map snd bs) ->
+  0 <= fst rc < fst nc -> 0 <= snd rc < snd nc ->
+  key_blocked bs nc sel rc =
+    (perm (prodZ (map fst bs)) (fst nc) (fst (key_packed bs nc sel rc)),
+     perm (prodZ (map snd bs)) (snd nc) (snd (key_packed bs nc sel rc))).
+Proof.
+  intros bs nc sel rc HI HJ Hr Hc.
+  unfold key_blocked, key_packed, ml_key, to_seq. simpl fst; simpl snd.
+  rewrite !map_app. simpl map.
+  pose proof (Forall2_length _ _ _ _ _ HI) as HlI. pose proof (Forall2_length _ _ _ _ _ HJ) as HlJ.
+  rewrite !to_seq_acc_snoc by assumption.
+  rewrite !perm_of_packed by assumption.
+  simpl to_seq_acc.
+  rewrite (to_seq_acc_shift (map fst sel) (map fst bs) (fst rc)) by assumption.
+  rewrite (to_seq_acc_shift (map snd sel) (map snd bs) (snd rc)) by assumption.
+  reflexivity.
+Qed.
